@@ -1045,3 +1045,19 @@ class Bound_ext:
             if self.op == "copy":
                 return ts(r)
         return EMPTY
+
+
+def super_targets(m: "Model", c: "ClassInfo") -> Dict[int, ast.FunctionDef]:
+    """id(`super().name(...)` call node) -> the implementation the call reaches
+    in the MRO of the concrete class c."""
+    out: Dict[int, ast.FunctionDef] = {}
+    mro = m.mro(c)
+    for i, k in enumerate(mro):
+        for fi in k.methods.values():
+            for n in ast.walk(fi.node):
+                if isinstance(n, ast.Call) and isinstance(n.func, ast.Attribute) and isinstance(n.func.value, ast.Call) and isinstance(n.func.value.func, ast.Name) and n.func.value.func.id == "super":
+                    for k2 in mro[i + 1 :]:
+                        if n.func.attr in k2.methods:
+                            out[id(n)] = k2.methods[n.func.attr].node
+                            break
+    return out
